@@ -6,7 +6,7 @@ well.  Enumerated cells (gen/slabs.c18_cells) x presentation pool (rotation, tra
 import numpy as np
 
 from checks import c17 as c17mod
-from gen import slabs
+from gen import slabs, structures
 from monitors import core, pipeline
 from harness import main as hmain
 
@@ -71,6 +71,9 @@ def run_case(case):
         out = rec.export(); out["discarded"] = "too_many_atoms"; out["info"] = info0
         return out
     atoms, mapped = slabs.present(base, rng, noise=0.0, track={"ads": ads})
+    # decorations that must not matter (own random stream: the presentation itself is unchanged)
+    drng = np.random.default_rng(slabs.stable_seed(cell["key"], case["seed_class"], 977))
+    decorations = structures.decorate(atoms, drng) if drng.random() < 0.35 else []
     ok, why = slabs.bonding_precondition(atoms)
     if not ok:
         out = rec.export(); out["discarded"] = "precondition:%s" % why; out["info"] = info0
@@ -107,7 +110,7 @@ def run_case(case):
         core.set_recorder(None)
     out = rec.export()
     out["info"] = {"key": cell["key"], "nontrivial": True,
-                   "classes": {"prototype": proto, "kind": cell["kind"], "facet": "".join(str(i) for i in cell.get("facet", [])) or "-",
+                   "classes": {"decorated": bool(decorations), "prototype": proto, "kind": cell["kind"], "facet": "".join(str(i) for i in cell.get("facet", [])) or "-",
                                "layers": cell.get("layers", 1), "n_ads": cell.get("n_ads", 0), "natoms_bucket": len(atoms) // 50 * 50}}
     out["sample"] = {"cell": cell["key"], "natoms": len(atoms), "adsorbates": mapped["ads"], "observed": obs}
     return out
